@@ -157,6 +157,11 @@ static unsigned char *make_jpeg(int bits, int w, int h, int jcs, int hs, int vs,
   return out;
 }
 
+/* plane rows as the library allocates them (alloc_sarray): every row starts on a 32-byte boundary and is padded to a
+   multiple of 32 bytes (+ one more vector), because the SSE2 kernels use aligned loads/stores on the planar side */
+static size_t row_stride(int w, int bits) { return ((size_t)w * ssz(bits) + 31) / 32 * 32 + 64; }
+static void *plane_alloc(int w, int rows, int bits) { size_t n = row_stride(w, bits) * (size_t)(rows + 1); void *p = aligned_alloc(32, n); memset(p, 0, n); return p; }
+
 /* ------------------------------------------------------------------ kernel cases */
 static void print_list(const char *sep, const void *b, int bits, size_t n)
 {
@@ -195,16 +200,19 @@ static void kernel_compress(const char *op, int bits, int cs, int w, int h, int 
     inrows[i] = (char *)buf + (size_t)(bu ? (h - i - 1) : i) * pitch * ssz(bits);
   img = malloc(sizeof(void **) * 4);
   for (ci = 0; ci < 4; ci++) {
-    planes[ci] = calloc((size_t)w * h + 64, 2);
+    planes[ci] = plane_alloc(w, h, bits);
     prow[ci] = malloc(sizeof(void *) * (h + 1));
-    for (i = 0; i < h; i++) prow[ci][i] = (char *)planes[ci] + (size_t)i * w * ssz(bits);
+    for (i = 0; i < h; i++) prow[ci][i] = (char *)planes[ci] + (size_t)i * row_stride(w, bits);
     img[ci] = prow[ci];
   }
   if (bits == 8) (*c.cconvert->color_convert) (&c, (JSAMPARRAY)inrows, (JSAMPIMAGE)img, 0, h);
   else if (bits == 12) (*c.cconvert->color_convert_12) (&c, (J12SAMPARRAY)inrows, (J12SAMPIMAGE)img, 0, h);
   else (*c.cconvert->color_convert_16) (&c, (J16SAMPARRAY)inrows, (J16SAMPIMAGE)img, 0, h);
   fputs("ok", stdout);
-  for (ci = 0; ci < ncomp; ci++) print_list(ci ? " | " : " ", planes[ci], bits, (size_t)w * h);
+  for (ci = 0; ci < ncomp; ci++) {
+    fputs(ci ? " |" : "", stdout);
+    for (i = 0; i < h; i++) print_list(" ", prow[ci][i], bits, (size_t)w);
+  }
   fputs("\n", stdout);
 done:
   jpeg_destroy_compress(&c);
@@ -242,11 +250,11 @@ static void kernel_decompress(const char *op, int bits, int cs, int w, int h, in
   for (ci = 0; ci < 4; ci++) {
     int pw = (ci == 0) ? w : cw, ph = (ci == 0) ? h : chh, k = 0;
     if (!merged) { pw = w; ph = h; }
-    pl[ci] = calloc((size_t)pw * (ph + 2) + 64, 2);
+    pl[ci] = plane_alloc(pw, ph + 2, bits);
     prow[ci] = malloc(sizeof(void *) * (ph + 3));
-    for (i = 0; i < ph + 2; i++) prow[ci][i] = (char *)pl[ci] + (size_t)i * pw * ssz(bits);
+    for (i = 0; i < ph + 2; i++) prow[ci][i] = (char *)pl[ci] + (size_t)i * row_stride(pw, bits);
     if (ci < nin)
-      for (k = 0; k < list_len[ci] && k < pw * ph; k++) puts_(pl[ci], bits, k, nums[list_off[ci] + k]);
+      for (k = 0; k < list_len[ci] && k < pw * ph; k++) puts_(prow[ci][k / pw], bits, k % pw, nums[list_off[ci] + k]);
     img[ci] = prow[ci];
   }
   n = list_len[nin];
@@ -574,6 +582,50 @@ static void do_dec(const par_t *p)
         }
         free(buf); free(orig);
       }
+  }
+  /* cropping region x scaling x pitch: pitch 0 means (width of the REGION) * pixelSize.  Exact-size expectation: the rows of the
+     region are found at stride cw*ps, everything after cw*ps*ch samples of a large prefilled buffer stays untouched */
+  if (!p->lossless && bits != 16) {
+    int sub = tj3Get(d, TJPARAM_SUBSAMP), imcu, nx, cx, cw, cy, chh, k;
+    tj3DecompressHeader(d, jpg, jlen);
+    sub = tj3Get(d, TJPARAM_SUBSAMP);
+    tj3SetScalingFactor(d, sf);
+    imcu = (sub >= 0) ? TJSCALED(tjMCUWidth[sub], sf) : 0;
+    sm_state = vseed++;
+    nx = imcu > 0 ? (ow - 1) / imcu : 0;
+    cx = imcu * sm_below(nx + 1);
+    cw = 1 + sm_below(ow - cx);
+    if (cw == ow - cx && cx == 0 && ow > 1) cw = ow - 1;      /* make it a proper sub-region */
+    cy = sm_below(oh); chh = 1 + sm_below(oh - cy);
+    if (imcu > 0 && cw >= 1) {
+      tjregion reg; static const int CPF[3] = { 0, 3, 9 };     /* RGB, BGRX, ABGR */
+      reg.x = cx; reg.y = cy; reg.w = cw; reg.h = chh;
+      tj3Set(d, TJPARAM_FASTDCT, p->flags & 1);
+      tj3Set(d, TJPARAM_FASTUPSAMPLE, (p->flags >> 4) & 1);
+      if (tj3SetCroppingRegion(d, reg)) printf(" crop:set=ERR(%s)", tjerr(d));
+      else for (k = 0; k < 3; k++) {
+        const fmt_t *F = &TJF[CPF[k]]; int off[3], var;
+        off[0] = F->r; off[1] = F->g; off[2] = F->b;
+        for (var = 0; var < 4; var++) {    /* 0: explicit pitch cw*ps; 1: pitch 0; 2: pitch 0 bottom-up; 3: explicit pitch + 7 */
+          int bu = (var == 2), reqpitch = (var == 0) ? cw * F->ps : (var == 3) ? cw * F->ps + 7 : 0;
+          int effpitch = reqpitch ? reqpitch : cw * F->ps, rc, ba, tc;
+          size_t n = (size_t)(ow * F->ps + 16) * (oh + 2) + 64;
+          void *buf = malloc((n + 8) * 2), *orig = malloc((n + 8) * 2); uint64_t hh;
+          junk(buf, bits, n);
+          memcpy(orig, buf, n * ssz(bits));
+          tj3Set(d, TJPARAM_BOTTOMUP, bu);
+          rc = tj_decompress(d, bits, jpg, jlen, buf, reqpitch, F->id);
+          if (rc) printf(" crop:%s.v%d=ERR(%s)", F->name, var, tjerr(d));
+          else {
+            judge(buf, orig, bits, cw, chh, effpitch, bu, F->ps, off, 3, F->a, amax, n, &hh, &ba, &tc);
+            printf(" crop:%s.v%d=%016llx.%d.%d", F->name, var, (unsigned long long)hh, ba, tc);
+          }
+          free(buf); free(orig);
+        }
+      }
+      { tjregion none = { 0, 0, 0, 0 }; tj3SetCroppingRegion(d, none); }
+    }
+    tj3Set(d, TJPARAM_BOTTOMUP, 0);
   }
   if (!p->lossless && p->cspace == TJCS_RGB) {
     /* JPEG stored as RGB: its luminance is the documented fixed-point Y of the decoded R,G,B */
